@@ -11,36 +11,11 @@ EXTENDS SortA, TraceIO
 VARIABLE l
 Ev == TraceLog[l]
 
-(***************************************************************************)
-(* Phase discipline of PMergesortI on the recorded accesses to the caller's *)
-(* array: "acc" = [[thread, write(0|1), position, barrier waits completed]..].  *)
-(* Thread t (shim numbering: worker iam = t - 1) reads only its own chunk   *)
-(* and only before its first barrier; it writes only in the merge phase     *)
-(* (after 2 barriers with exact splitting, after 1 with sampling); every    *)
-(* position is written exactly once; with exact splitting thread iam writes *)
-(* exactly the positions of chunk iam, with sampling the threads write      *)
-(* contiguous ranges in thread order.                                       *)
-(***************************************************************************)
-NEl == Len(Ev.keys)
-TEff == IF Ev.threads > NEl THEN NEl ELSE Ev.threads
-ChunkStart(i) == (i * (NEl \div TEff)) + (IF i < NEl % TEff THEN i ELSE NEl % TEff)
-MergePhase == IF Ev.mwmsa = 0 THEN 1 ELSE 2          \* MWMSA_SAMPLING = 0, MWMSA_EXACT = 1
-Writes == {i \in 1 .. Len(Ev.acc) : Ev.acc[i][2] = 1}
-AccessOK ==
-    (HasField(Ev, "acc") /\ NEl >= 2) =>
-        /\ \A i \in 1 .. Len(Ev.acc) :
-              LET a == Ev.acc[i]  iam == a[1] - 1 IN
-              /\ iam \in 0 .. TEff - 1
-              /\ (a[2] = 0 => a[4] = 0 /\ a[3] > ChunkStart(iam) /\ a[3] <= ChunkStart(iam + 1))
-              /\ (a[2] = 1 => a[4] = MergePhase /\ (Ev.mwmsa = 1 => a[3] > ChunkStart(iam) /\ a[3] <= ChunkStart(iam + 1)))
-        /\ \A p \in 1 .. NEl : Cardinality({i \in Writes : Ev.acc[i][3] = p}) = 1
-        /\ \A i, j \in Writes : (Ev.acc[i][1] < Ev.acc[j][1]) => Ev.acc[i][3] < Ev.acc[j][3]
 Step ==
     CASE Ev.e = "reset" -> TRUE
       [] Ev.e = "sort" -> /\ SortOK(Ev.keys, Ev.out, Ev.stable)
                           /\ Ev.live_delta = 0
                           /\ Ev.problems = 0 /\ Ev.deadlock = FALSE
-                          /\ AccessOK
       [] OTHER -> FALSE
 TInit == l = 1
 TNext == l <= TraceLen /\ Step /\ l' = l + 1
